@@ -24,5 +24,6 @@ func VP_C02_postfix() {
 		t.kinds = append(t.kinds, k)
 		t.lb = append(t.lb, vpBool("lb"))
 	}
-	vpCompareParsers(t, true, "C02/postfix")
+	// CUT=0: full error recovery (a diagnostic recorded early must still make the parse fail later)
+	vpCompareParsers(t, vpParam("CUT") == 1, "C02/postfix")
 }
